@@ -654,10 +654,13 @@ def units(tier):
     yield from table_kind_statements(conn)
 
 
+_UNITS = None       # built once in the parent, inherited by the forked workers
+
+
 def shard_fn(shard, nshards, tier):
     acc = par.Acc()
     conn = connection()
-    for i, u in enumerate(units(tier)):
+    for i, u in enumerate(_UNITS if _UNITS is not None else units(tier)):
         if i % nshards != shard:
             continue
         group, label, text, spec, nhidden = u
@@ -688,9 +691,11 @@ def replay(case):
 
 
 def run(ctx):
+    global _UNITS
     conn = connection()
-    # the menus must be well typed on the unchanged harness table: anything else is a harness error
+    _UNITS = list(units(ctx.tier))
     total = par.run_shards(shard_fn, ctx.jobs, ctx.tier, nshards=ctx.jobs * 4)
+    _UNITS = None
     n, s = total.n, total.sets
     cov = {
         'states': len(s['texts']),
